@@ -75,6 +75,14 @@ def convert(v, t):
         return V(lo, hi, False, v.inp, v.vf, v.lt if not v.f else None)
     if t.get('bool'):
         return V(0, 1, False, v.inp)
+    # a range that lies inside one 2^w window converts by the same offset for all its values (in particular a single value wraps
+    # exactly: (uint32_t)INT32_MIN is 2^31)
+    w = t.get('w')
+    if w and not v.f and isinstance(lo, int) and isinstance(hi, int):
+        m = 1 << w
+        k_lo, k_hi = (lo - r.lo) // m, (hi - r.lo) // m
+        if k_lo == k_hi:
+            return V(lo - k_lo * m, hi - k_lo * m, False, v.inp)
     return V(r.lo, r.hi, False, v.inp, v.vf if (t.get('u') and v.lo >= 0) else None)
 
 
@@ -417,7 +425,8 @@ class Engine2:
             return V(rt.lo, rt.hi, False, inp)
         if lo < rt.lo or hi > rt.hi:
             if t.get('u'):
-                lo, hi = rt.lo, rt.hi                     # unsigned arithmetic wraps: anything in the type
+                cv = convert(V(lo, hi), t) if t.get('w') else None      # wraps; exact when the whole range wraps by the same offset
+                lo, hi = (cv.lo, cv.hi) if cv is not None else (rt.lo, rt.hi)
             else:
                 lo, hi = max(lo, rt.lo), min(hi, rt.hi)   # signed overflow is undefined: results that exist are inside the type
                 if lo > hi:
